@@ -62,16 +62,16 @@ Fixpoint macros (c : cond) : list N :=
    [on] the current branch is active, [isk] the chain is one of the known ones *)
 Record frame := mkframe { par : bool; done : bool; on : bool; isk : bool }.
 (* [taken]: ids of the groups entered (reversed); [bad]: the tree left the shape the theorem needs (see step);
-   [starved]: include nesting deeper than the fuel *)
-Record st := mkst { env : list N; once : list nat; taken : list N; bad : bool; starved : bool }.
+   [too_deep]: include nesting deeper than the fuel *)
+Record st := mkst { env : list N; once : list nat; taken : list N; bad : bool; too_deep : bool }.
 
-Definition set_bad (s : st) : st := mkst (env s) (once s) (taken s) true (starved s).
-Definition set_starved (s : st) : st := mkst (env s) (once s) (taken s) (bad s) true.
-Definition record (id : N) (s : st) : st := mkst (env s) (once s) (id :: taken s) (bad s) (starved s).
-Definition add_macro (m : N) (s : st) : st := mkst (m :: env s) (once s) (taken s) (bad s) (starved s).
+Definition set_bad (s : st) : st := mkst (env s) (once s) (taken s) true (too_deep s).
+Definition set_too_deep (s : st) : st := mkst (env s) (once s) (taken s) (bad s) true.
+Definition record (id : N) (s : st) : st := mkst (env s) (once s) (id :: taken s) (bad s) (too_deep s).
+Definition add_macro (m : N) (s : st) : st := mkst (m :: env s) (once s) (taken s) (bad s) (too_deep s).
 Definition del_macro (m : N) (s : st) : st :=
-  mkst (filter (fun x => negb (N.eqb x m)) (env s)) (once s) (taken s) (bad s) (starved s).
-Definition add_once (f : nat) (s : st) : st := mkst (env s) (f :: once s) (taken s) (bad s) (starved s).
+  mkst (filter (fun x => negb (N.eqb x m)) (env s)) (once s) (taken s) (bad s) (too_deep s).
+Definition add_once (f : nat) (s : st) : st := mkst (env s) (f :: once s) (taken s) (bad s) (too_deep s).
 
 Definition active (stk : list frame) : bool := match stk with [] => true | f :: _ => on f end.
 Definition in_k (stk : list frame) : bool := match stk with [] => false | f :: _ => isk f end.
@@ -131,13 +131,13 @@ Section Model.
 
   Fixpoint run_file (fuel : nat) (f : nat) (s : st) : st :=
     match fuel with
-    | O => set_starved s
+    | O => set_too_deep s
     | S k => run_lines (run_file k) f (nth f fs []) [] s
     end.
 End Model.
 
 Definition init (e : list N) : st := mkst e [] [] false false.
-Definition fuel_for (fs : list (list line)) : nat := S (S (length fs)).
+Definition depth_fuel (fs : list (list line)) : nat := S (S (length fs)).
 
 (* the macros mentioned by the conditions of the groups outside K *)
 Definition line_macros (K : list N) (l : line) : list N :=
@@ -150,7 +150,7 @@ Definition mentioned_nonk (K : list N) (fs : list (list line)) : list N :=
 
 (* one translation unit: file [root] of [fs] under the environment [e] *)
 Definition run_tu (K : list N) (opq : N -> bool) (fs : list (list line)) (root : nat) (e : list N) : st :=
-  run_file K (mentioned_nonk K fs) opq fs (fuel_for fs) root (init e).
+  run_file K (mentioned_nonk K fs) opq fs (depth_fuel fs) root (init e).
 Definition branches (K : list N) (opq : N -> bool) (fs : list (list line)) (root : nat) (e : list N) : list N :=
   rev (taken (run_tu K opq fs root e)).
 
